@@ -143,6 +143,9 @@ pub fn gen_cases(seed: u64, p: &GenParams, lalr: bool) -> Vec<String> {
         if !seen.insert(g.show()) {
             continue;
         }
+        if lalr && g.has_cycle() {
+            continue; // F24: the generated LR parser may not terminate on cyclic grammars (C19 handles it)
+        }
         let po = ParOpts {
             lalr,
             line_comment: p.styled,
